@@ -474,7 +474,11 @@ def _model_params(g):
         if isinstance(x, float):
             return str(x)
         return x
-    return conv(g)
+    from gen import srreports
+    out = conv({k: v for k, v in g.items() if k != 'context'})
+    a, b = srreports.context_items(g)
+    out['ctx_a'], out['ctx_b'] = a, b
+    return out
 
 
 def _real_items(group_item):
@@ -621,8 +625,9 @@ def run(ctx):
         if why:
             continue
         got = ans['ok']['spec']
-        if not ans['ok']['consistent']:
-            ctx.disagree('L0', case, None, ans, 'spec: generated parameters are not `consistent` (theorem hypothesis)')
+        if not (ans['ok']['consistent'] and ans['ok'].get('context_ok') and ans['ok'].get('clean_names')):
+            ctx.disagree('L0', case, None, ans, 'spec: generated parameters violate a hypothesis of query_sound_complete '
+                                                '(consistent / ContextOK / CleanNames)')
         elif not (set(must) <= set(got) <= set(may)):
             ctx.disagree('L0', case, {'must': must, 'may': may}, got, 'spec: Lean specKind/specFilters vs oracle predicate')
     for (case, impl), ans in zip(pending2, answers[len(reqs):len(reqs) + len(reqs2)]):
